@@ -13,10 +13,15 @@ PROPS = {
     ),
     "C18": dict(
         level="exploration",
-        modules=[],
+        modules=["specs.registry"],
         bounded=[("bounded.c18", "run")],
-        assumes=["A6", "A9"],
-        trusted=["model strings are synthesised per regex chain (one per devdb sequence): the one non-exhaustive ingredient"],
+        assumes=["A3", "A6", "A9"],
+        trusted=["Registry.match is proved to return the first vendor (registration order) among those owning a matching path with the "
+                 "largest number of dots, else the default, and to leave the registry unmodified - relative to vendor.match() / "
+                 "HardwareView.match (opaque) and the assumed stable-sort axiom; independence of the registration order additionally "
+                 "needs the most specific vendor to be unique, which is a fact about devdb.json decided by the bounded layer",
+                 "find_true_sequences, rulebook rendering / compilation: bounded only",
+                 "model strings are synthesised per regex chain (one per devdb sequence): the one non-exhaustive ingredient"],
         rule="exhaustive over the finite configuration space",
     ),
     "C08": dict(
@@ -154,7 +159,7 @@ PROPS = {
     ),
     "C01": dict(
         level="exploration",
-        modules=["specs.rbcommon", "specs.patching", "specs.formatter", "specs.makepre", "specs.aclmatch"],
+        modules=["specs.rbcommon", "specs.patching", "specs.formatter", "specs.makepre", "specs.aclmatch", "specs.basediff"],
         bounded=[("bounded.c01", "run")],
         assumes=["A2", "A3", "A6", "A7", "A8", "A9"],
         trusted=["make_pre is proved equal to its bucket-grouping spec (diffs without %multiline rules); make_diff / apply_diff_rb / "
